@@ -104,6 +104,32 @@ class Units:
                         tags.add("rel")
                 elif seg in ("file_range",):
                     tags.add("abs")
+                elif seg in ("and_then", "map", "map_or", "unwrap_or_else", "or_else") and depth < 4:
+                    # the value is what the closure returns: add the units of the closure's result
+                    for x in t["args"][1:]:
+                        xl = F.op_local(x)
+                        for o in fl.origins(xl, passthrough=()) if xl is not None else []:
+                            if o[0] == "agg" and o[1].get("k") == "closure" and o[1].get("closure") in self.f.bodies:
+                                cb = self.f.bodies[o[1]["closure"]]
+                                tags |= self.classify(cb, 0, depth=depth + 1)
+            elif a[0] == "arg" and body["kind"] == "Closure" and a[1] >= 2 and depth < 4:
+                # a closure parameter: the payload of the Option / Result / iterator the closure is applied to in its parent
+                parent = self.f.bodies.get(body.get("parent") or "")
+                if parent is not None:
+                    pfl = Flow(parent)
+                    for bi, t in F.calls(parent):
+                        if last_seg(F.callee_name(t)) not in ("and_then", "map", "map_or", "map_or_else", "filter", "is_some_and", "then", "unwrap_or_else", "or_else", "filter_map", "for_each"):
+                            continue
+                        passed = False
+                        for x in t["args"][1:]:
+                            xl = F.op_local(x)
+                            for o in pfl.origins(xl, passthrough=()) if xl is not None else []:
+                                if o[0] == "agg" and o[1].get("k") == "closure" and o[1].get("closure") == body["id"]:
+                                    passed = True
+                        if passed:
+                            rl = arg_local(t, 0)
+                            if rl is not None:
+                                tags |= self.classify(parent, rl, depth=depth + 1, fl=pfl)
             elif a[0] == "arg":
                 if self.param_is_base(body, a[1], depth):
                     tags.add("base")
